@@ -2,6 +2,7 @@ package oracle
 
 import (
 	"encoding/json"
+	"sort"
 	"strings"
 )
 
@@ -118,7 +119,13 @@ func (c *ctx) shutdown() {
 			}
 		}
 	}
-	for id, s := range conns {
+	ids := make([]int, 0, len(conns))
+	for id := range conns {
+		ids = append(ids, id)
+	}
+	sort.Ints(ids)
+	for _, id := range ids {
+		s := conns[id]
 		if s.haveBase && s.base >= 0 && lastT > s.base && (s.closedAt < 0 || s.closedAt > s.base) {
 			c.v("C17/idle-connection-not-reaped", "conn %d: no complete packet before the read deadline t=%d, yet the connection was closed at t=%d (run lasted until t=%d)", id, s.base, s.closedAt, lastT)
 		}
